@@ -14,7 +14,7 @@ import sys
 
 HERE = os.path.dirname(os.path.abspath(__file__))
 NEU = os.path.join(HERE, "neutral")
-REPO = "/repo"
+REPO = os.environ.get("VP_REPO", "/repo")
 
 
 def sh(cmd, cwd=None):
